@@ -9,9 +9,20 @@ EXTENDS UrlInvariants, Json
 CONSTANTS Mode, Alphabet, MinLen, MaxLen, HPre, HSuf, Frames, Pieces, BaseHosts, MaxVar
 
 Strings == UNION {[1..k -> Alphabet] : k \in MinLen..MaxLen}
-VARIABLE w       \* the enumerated object: host middle text | address | base host
-Init == w \in (IF Mode = "text" THEN Strings ELSE IF Mode = "v6val" THEN [1..8 -> Pieces] ELSE BaseHosts)
-Next == FALSE /\ w' = w
+Domain == IF Mode = "text" THEN Strings ELSE IF Mode = "v6val" THEN [1..8 -> Pieces] ELSE BaseHosts
+(* Every object of Domain is one TLC state.  TLC evaluates initial states (and their invariants) on ONE thread, so the
+   objects are reached in two steps instead: the single initial state fans out into NB bucket states, and each bucket
+   state into the objects of its bucket - the per-object work (parser runs, emission) is then spread over all workers. *)
+NB == 64
+RECURSIVE SumSeq(_)
+SumSeq(x) == IF x = <<>> THEN 0 ELSE Head(x) + SumSeq(Tail(x))
+Bucket(x) == (Len(x) + SumSeq(x)) % NB
+VARIABLES w,     \* the enumerated object: host middle text | address | base host
+          ph     \* 0 = initial, 1..NB = bucket chosen, NB + 1 = object chosen
+Init == w = <<>> /\ ph = 0
+Next == \/ ph = 0 /\ \E b \in 1..NB : ph' = b /\ w' = <<>>
+        \/ ph \in 1..NB /\ \E x \in Domain : Bucket(x) = ph - 1 /\ w' = x /\ ph' = NB + 1
+Active == ph = NB + 1
 
 H == HPre \o w \o HSuf
 PLine(in) == LET r == Parse(in, None, None) IN
@@ -33,7 +44,7 @@ V4Inv ==
   LET d == LowerSeq(H)                      \* the alphabet has no '%', so the decoded domain is the lowercased text
       r == ParseHost(H, FALSE, None)
       o == ParseHost(H, TRUE, None)
-  IN (Mode = "text" /\ H # <<>> /\ r.asked = None) =>
+  IN (Active /\ Mode = "text" /\ H # <<>> /\ r.asked = None) =>
      /\ (LastLabelIsNumber(d) => (r.kind = "ipv4" \/ ~r.ok))              \* ends in a number: address or failure
      /\ (~LastLabelIsNumber(d) => (r.kind # "ipv4" /\ (r.ok => r.host = d)))   \* never turned into an address
      /\ (r.kind = "ipv4" => /\ IsDottedDecimal(r.host)
@@ -58,12 +69,12 @@ CanonText(a) ==
   IN IF best[1] = 0 THEN hexes(1, 8)
      ELSE hexes(1, best[1] - 1) \o <<58, 58>> \o hexes(best[1] + best[2], 8)
 V6TextInv ==
-  Mode = "text" =>
+  (Active /\ Mode = "text") =>
     LET r == ParseIPv6(w) IN
     r # None => /\ SerIPv6(Get(r)) = CanonText(Get(r))                 \* canonical, by the independent definition
                 /\ ParseIPv6(SerIPv6(Get(r))) = r                      \* serialize-then-parse is the identity
                 /\ LowerSeq(SerIPv6(Get(r))) = SerIPv6(Get(r))
-V6ValInv == Mode = "v6val" => SerIPv6(w) = CanonText(w) /\ ParseIPv6(SerIPv6(w)) = Some(w)
+V6ValInv == (Active /\ Mode = "v6val") => SerIPv6(w) = CanonText(w) /\ ParseIPv6(SerIPv6(w)) = Some(w)
 
 Pad4(n) == LET h == HexStr(n) IN Repeat(<<48>>, 4 - Len(h)) \o h
 Full(a, pad, up) == LET t == JoinWith([i \in 1..8 |-> IF pad THEN Pad4(a[i]) ELSE HexStr(a[i])], 58) IN IF up THEN UpperSeq(t) ELSE t
@@ -75,7 +86,7 @@ Dotted(a) == JoinWith([i \in 1..6 |-> HexStr(a[i])], 58) \o <<58>>
              \o DecStr(a[7] \div 256) \o <<46>> \o DecStr(a[7] % 256) \o <<46>> \o DecStr(a[8] \div 256) \o <<46>> \o DecStr(a[8] % 256)
 Spellings6(a) == {SerIPv6(a), Full(a, FALSE, FALSE), Full(a, TRUE, FALSE), Full(a, FALSE, TRUE), Dotted(a)} \cup AltCompress(a)
 (* every spelling parses to the same address (design) *)
-V6SpellInv == Mode = "v6val" => \A t \in Spellings6(w) : ParseIPv6(t) = Some(w)
+V6SpellInv == (Active /\ Mode = "v6val") => \A t \in Spellings6(w) : ParseIPv6(t) = Some(w)
 
 (* ---------------- C09: spelling classes ---------------- *)
 FlipCase(c) == IF IsUpper(c) THEN c + 32 ELSE IF IsLower(c) THEN c - 32 ELSE c
@@ -94,11 +105,11 @@ SpellAcc(b, i, k) ==
 SpellingsOf(b) == SpellAcc(b, 1, MaxVar)
 SetToSeq(S) == LET RECURSIVE f(_) f(T) == IF T = {} THEN <<>> ELSE LET x == CHOOSE y \in T : TRUE IN <<x>> \o f(T \ {x}) IN f(S)
 (* design: on the specification every spelling of a TRIVIAL base host yields the same host *)
-ClassInv == (Mode = "class" /\ TrivialDomain(w)) =>
+ClassInv == (Active /\ Mode = "class" /\ TrivialDomain(w)) =>
               \A t \in SpellingsOf(w) : ParseHost(t, FALSE, None) = ParseHost(w, FALSE, None)
 
 (* ---------------- emission ---------------- *)
-Emit ==
+Emit == Active =>
   CASE Mode = "text" -> \A fr \in Frames : PrintT(ToJson(PLine(fr[1] \o H \o fr[2])))
     [] Mode = "v6val" -> \A t \in Spellings6(w), fr \in Frames :
                            PrintT(ToJson(PLine(fr[1] \o <<91>> \o t \o <<93>> \o fr[2])))
